@@ -78,19 +78,19 @@ Fixpoint no_bv (p : tpat) : bool :=
   | _ => true
   end.
 
-Lemma match_list_complete_fields (f : tpat -> tty -> rmap -> option rmap) (g : rmap -> tpat -> tty -> bool)
+Lemma match_list_complete_fields (Q : rmap -> Prop) (f : tpat -> tty -> rmap -> option rmap) (g : rmap -> tpat -> tty -> bool)
       (fps : list (Z * tpat)) :
-  Forall (fun fq => no_bv (snd fq) = true -> forall t m s, extends m s -> g s (snd fq) t = true ->
+  Forall (fun fq => no_bv (snd fq) = true -> forall t m s, Q s -> extends m s -> g s (snd fq) t = true ->
                     exists m', f (snd fq) t m = Some m' /\ extends m' s) fps ->
   forallb (fun fq => no_bv (snd fq)) fps = true ->
-  forall (tfs : list (Z * tty)) m s, extends m s -> forall2b (fun fq gx => g s (snd fq) (snd gx)) fps tfs = true ->
+  forall (tfs : list (Z * tty)) m s, Q s -> extends m s -> forall2b (fun fq gx => g s (snd fq) (snd gx)) fps tfs = true ->
   exists m', match_list (fun fq gx m => f (snd fq) (snd gx) m) fps tfs m = Some m' /\ extends m' s.
 Proof.
-  induction 1 as [|fq r Hq _ IH]; intros HB [|gx tfs] m s X; cbn [match_list forall2b]; try discriminate.
+  induction 1 as [|fq r Hq _ IH]; intros HB [|gx tfs] m s HQ X; cbn [match_list forall2b]; try discriminate.
   - intros _. exists m. auto.
   - cbn [forallb] in HB. apply andb_prop in HB. destruct HB as [HB1 HB2].
     intros H. apply andb_prop in H. destruct H as [H1 H2].
-    destruct (Hq HB1 _ _ _ X H1) as [m1 [E1 X1]]. rewrite E1. apply IH; auto.
+    destruct (Hq HB1 _ _ _ HQ X H1) as [m1 [E1 X1]]. rewrite E1. apply IH; auto.
 Qed.
 
 Lemma tmatch_complete p : no_bv p = true -> forall t m sg, extends m sg -> tinst sg p t = true ->
@@ -113,20 +113,36 @@ Proof.
   - destruct (strip_refs t0); try discriminate. intros H. apply andb_prop in H. destruct H as [H1 H2].
     destruct (smatch_complete _ _ _ _ X H1) as [m1 [E1 X1]]. rewrite E1, H2. exists m1. auto.
   - destruct (strip_refs t0); try discriminate. intros H. apply andb_prop in H. destruct H as [H1 H2]. rewrite H1.
-    apply (match_list_complete_fields tmatch tinst fps); auto.
+    apply (match_list_complete_fields (fun _ => True) tmatch tinst fps); auto.
+    eapply Forall_impl; [|exact IH]. cbn beta. intros fq Hq Hb t1 m1 s1 _. apply Hq; auto.
   - discriminate.
   - destruct t0; try discriminate. apply IH; auto.
   - destruct (strip_refs t0); try discriminate. intros _. exists m. auto.
 Qed.
 
-Lemma imatch_complete p : no_bv p = true -> forall t m sg, extends m sg -> iinst sg p t = true ->
+(* no scalar variable is bound to a named bundle: the input direction's "a variable bound to a bundle takes any
+   descendant" rule makes matching depend on which position binds first, so completeness is stated without it *)
+Definition no_bundle_binding (sg : rmap) : Prop :=
+  forall v b, afind v (r_sc sg) = Some b -> bundle_id b = None.
+
+Lemma bundle_is_a_base s b : bundle_is_a s b = true -> bundle_id b <> None.
+Proof. destruct s, b; cbn; discriminate. Qed.
+
+Lemma imatch_complete p : no_bv p = true -> forall t m sg, no_bundle_binding sg -> extends m sg -> iinst sg p t = true ->
   exists m', imatch p t m = Some m' /\ extends m' sg.
 Proof.
   induction p as [v cn | c | sp | sp | sz e IH | k v IH | a per mn sp | nd nm fps IH | v | q IH | ] using tpat_ind';
-    intros HB t0 m sg X; cbn [imatch iinst]; cbn [no_bv] in HB.
+    intros HB t0 m sg NB X; cbn [imatch iinst]; cbn [no_bv] in HB.
   - apply tmatch_complete; auto.
   - intros H. rewrite H. exists m. auto.
-  - destruct (strip_refs t0); try discriminate. apply smatch_complete; auto.
+  - destruct (strip_refs t0); try discriminate. intros H.
+    assert (sinst sg sp s = true) as HS.
+    { apply orb_prop in H. destruct H as [H|H]; auto. destruct sp; cbn [bound_bundle_accepts] in H; try discriminate.
+      destruct (afind v (r_sc sg)) as [b|] eqn:E; [|discriminate]. apply bundle_is_a_base in H. specialize (NB _ _ E). contradiction. }
+    destruct sp; try (apply smatch_complete; auto; fail).
+    destruct (afind v (r_sc m)) as [b|] eqn:E; [|apply smatch_complete; auto].
+    destruct (bundle_is_a s b) eqn:EB; [|apply smatch_complete; auto].
+    apply bundle_is_a_base in EB. pose proof X as [_ [Xs _]]. specialize (NB _ _ (Xs _ _ E)). contradiction.
   - apply tmatch_complete; auto.
   - destruct (strip_refs t0); try discriminate. intros H. apply andb_prop in H. destruct H as [H1 H2].
     destruct (szmatch_complete _ _ _ _ X H1) as [m1 [E1 X1]]. rewrite E1. apply IH; auto.
@@ -134,7 +150,7 @@ Proof.
     destruct (smatch_complete _ _ _ _ X H1) as [m1 [E1 X1]]. rewrite E1. apply IH; auto.
   - apply tmatch_complete; auto.
   - destruct (strip_refs t0); try discriminate. intros H. apply andb_prop in H. destruct H as [H1 H2]. rewrite H1.
-    apply (match_list_complete_fields imatch iinst fps); auto.
+    apply (match_list_complete_fields no_bundle_binding imatch iinst fps); auto.
   - discriminate.
   - apply IH; auto.
   - intros _. exists m. auto.
